@@ -5,6 +5,11 @@ V = os.path.dirname(os.path.dirname(os.path.abspath(__file__)))
 props = [json.loads(l) for l in open(os.path.join(V, "properties.jsonl"))]
 
 CHECKS = {
+ "C01": dict(
+   technique="TLA+ expression machine (ZnExpr: precedence table, minimal-brace renderer, reference evaluator, stack machine with short-circuit jumps) model-checked with TLC; TLC-generated trees/expected outcomes replayed through Interpreter.Execute in several spellings",
+   level="TLC enumerates every operator on every ordered pair of 16 leaves and all 4096 ordered operator triples in all 5 tree shapes (plus random depth-4 trees in the thorough tier), checks on the spec that the instruction machine agrees with the reference evaluator in every terminal state, and emits each tree with its minimal-brace token list, expected value or error and probe (evaluation) order; the real interpreter must reproduce each of them in 3-8 concrete spellings.",
+   note="trusted: TLC; exact-rational arithmetic in the spec vs IEEE doubles only on exactly representable (dyadic) intermediates; the harness's literal spellings",
+   ref="5 C01"),
  "C17": dict(
    technique="TLA+ refinement spec (ZnFile: chunked decoder refines one-shot decoder) exhaustively model-checked with TLC; TLC-generated file vectors replayed into pkg/io and LoadFile().Execute",
    level="TLC enumerates every byte-class file up to length 4 (quick) / 5 (thorough) x block sizes and proves, on the spec, that the chunked decoder equals the one-shot decoder or both reject; every vector is then replayed through the real FileStream.Read(n), ReadAll (incl. every split across the 4096 block boundary), ByteStream and end-to-end execution, comparing with the spec's expected characters. Exhaustive within the bound, nothing beyond it.",
